@@ -77,9 +77,11 @@ def validate(sc, cfg, files, kind, parallel=8, timeout=3000, replay=False):
             "complete": bool(complete), "drift": drift, "why": why}
 
 
-def model(sc, cfg, workers, expect=None, timeout=2400):
-    """V.model_check, returning the raw result (the expected counterexample is reported in the evidence)."""
-    res = V.run_tlc(sc, "Auth", "AuthMC.tla", cfg, workers=workers, timeout=timeout)
+def model(sc, cfg, workers, expect=None, timeout=2400, heap=None):
+    """V.model_check, returning the raw result (the expected counterexample is reported in the evidence).
+    heap: a smaller cap than verifylib's default for the small quick models (shared machine)."""
+    ee = {"JAVA_TOOL_OPTIONS": "-Xmx%s -XX:ParallelGCThreads=4" % heap} if heap else None
+    res = V.run_tlc(sc, "Auth", "AuthMC.tla", cfg, workers=workers, timeout=timeout, env_extra=ee)
     if res["violated"]:
         if expect and res["violated"] in expect:
             V.log("model Auth/%s: expected counterexample for %s (observation only)" % (cfg, res["violated"]))
@@ -117,10 +119,11 @@ def run(sc, tier, seed):
     # the four legs are independent: run them side by side
     with concurrent.futures.ThreadPoolExecutor(max_workers=5) as ex:
         # design level: every grant table of the universe; the HTTP filter chain for every request
-        f_m1 = ex.submit(model, sc, "Auth_%s.cfg" % tier, 8)
-        f_m2 = ex.submit(model, sc, "AuthHttp_%s.cfg" % tier, 8)
+        small = "2g" if tier == "quick" else None
+        f_m1 = ex.submit(model, sc, "Auth_%s.cfg" % tier, 8, None, 2400, small)
+        f_m2 = ex.submit(model, sc, "AuthHttp_%s.cfg" % tier, 8, None, 2400, small)
         # observation: the property as stated (strict injectivity of the database mapping) fails in the model of the code
-        f_m3 = ex.submit(model, sc, "Auth_dbstrict.cfg", 1, {"DbMapInjectiveStrict"}, 600)
+        f_m3 = ex.submit(model, sc, "Auth_dbstrict.cfg", 1, {"DbMapInjectiveStrict"}, 600, "1g")
         f_d = ex.submit(direct)
         f_h = ex.submit(http)
         futs = [f_m1, f_m2, f_m3, f_d, f_h]
